@@ -113,12 +113,30 @@ func (g *pg) intExpr(depth int) lang.Expr {
 			return g.callOf(f, depth-1)
 		}
 	case 7:
+		if g.o.OptBias && g.chance("floatchain", 20) {
+			// small integer literals behind an operand that is not one of them
+			// (a float where every bit counts, a name): nothing to work out in
+			// advance, and what there is to work out goes from left to right
+			var x lang.Expr = lang.Lit{V: lang.Float(rapid.SampledFrom([]float64{9007199254740992, 0.1, 0.001, 1e16}).Draw(g.t, "chainfloat"))}
+			if n, ok := g.intName(); ok && g.chance("chainname", 40) {
+				x = lang.Name{N: n}
+			}
+			op := rapid.SampledFrom([]string{"+", "*", "-"}).Draw(g.t, "chainop")
+			for i := rapid.IntRange(2, 3).Draw(g.t, "chainlen"); i > 0; i-- {
+				x = lang.Binary{Op: op, L: x, R: lang.Lit{V: lang.Int(rapid.Int64Range(0, 7).Draw(g.t, "chainlit"))}}
+			}
+			return x
+		}
 		if g.o.OptBias {
 			// constant arithmetic the optimizer can fold (or must not fold:
 			// negative and too-large intermediate results, any nesting shape)
 			return ConstTree(g.t, rapid.IntRange(1, 3).Draw(g.t, "cdepth"))
 		}
 	case 8:
+		if g.o.OptBias && g.chance("negatedtext", 12) {
+			// a sign in front of something that has none: the error is the answer
+			return lang.Binary{Op: rapid.SampledFrom([]string{"+", "-"}).Draw(g.t, "negop"), L: g.strExpr(0), R: lang.Unary{Op: "-", X: g.strExpr(0)}}
+		}
 		return lang.Unary{Op: "-", X: g.intExpr(depth - 1)}
 	}
 	return lang.Paren{X: g.intExpr(depth - 1)}
